@@ -50,13 +50,13 @@ def pick_cfg(rnd, U, profile="general"):
         c = rnd.choice(choices)
         return c if c == MAX else c * U
     cfg = dict(
-        sessionExpiry=dur([MAX, MAX, 20, 8, 6, 3] + ([0] if rnd.random() < 0.05 else [])),
-        idExpiry=dur([MAX, 0, 2, 2, 5, 5, 9]),
-        grace=dur([0, 1, 3, 3, 10, 10] + ([MAX] if rnd.random() < 0.1 else [])),
-        cacheExpiry=dur([MAX, 100, 4, 4, 1]),
-        acceptIP=rnd.choice([1, 1, 1, 2, 3, 4, 5]),
+        sessionExpiry=dur([MAX, MAX, 20, 8, 6, 3] + ([0] if rnd.random() < 0.05 else []) + ([-1] if rnd.random() < 0.02 else [])),
+        idExpiry=dur([MAX, 0, 2, 2, 5, 5, 9] + ([-3] if rnd.random() < 0.03 else [])),
+        grace=dur([0, 1, 3, 3, 10, 10] + ([MAX] if rnd.random() < 0.1 else []) + ([-2] if rnd.random() < 0.03 else [])),
+        cacheExpiry=dur([MAX, 100, 4, 4, 1] + ([0] if rnd.random() < 0.05 else []) + ([-1] if rnd.random() < 0.02 else [])),
+        acceptIP=rnd.choice([1, 1, 1, 2, 3, 4, 5] + ([0, -1, 7] if rnd.random() < 0.05 else [])),
         acceptUA=rnd.choice([0, 1]),
-        maxCache=rnd.choice([-1, 0, 1, 1, 2, 2, 3, 100]),
+        maxCache=rnd.choice([-1, 0, 1, 1, 2, 2, 3, 100] + ([-7] if rnd.random() < 0.03 else [])),
     )
     return cfg
 
